@@ -215,6 +215,12 @@ class SizeEval:
             return self.comp(node.args[0], 0)
         if isinstance(node, ast.Attribute) and node.attr in ("nBytes", "nbytes"):
             return self.nbytes_of(node)
+        # <codec>.nBytes(n) = itemsize * n   (n may itself be a sum over runs)
+        if isinstance(node, ast.Call) and isinstance(node.func, ast.Attribute) and node.func.attr == "nBytes" and isinstance(node.func.value, ast.Name) \
+                and len(node.args) <= 1 and not node.keywords:
+            cod = self.sc.prog.codec(self.f.module, node.func.value.id)
+            if cod is not None:
+                return (self.P(node.args[0]) if node.args else Poly.const(1)) * cod[1].itemsize
         e = self.expr_ast(node)
         ci = self.ctx.const_int(e)
         if ci is not None:
